@@ -157,6 +157,7 @@ type Interp struct {
 	strBuilders map[*Cell]*strings.Builder
 	nextMap   int
 	nextSeed  int
+	mapOrder  int
 	funcsSeen map[*ssa.Function]bool
 	aborted   bool
 	race      *raceReport
@@ -1061,18 +1062,20 @@ func (in *Interp) rangeIter(x Value, t types.Type) Value {
 			it.m = xv.m
 			n := len(xv.m.entries)
 			order := append([]mapEntry(nil), xv.m.entries...)
-			// iteration order is a decision: choose a permutation by successive picks
+			// iteration order is a decision variable with a bounded domain: one choice per run, taken at the first
+			// range over a map with two or more entries: 0 = insertion order, 1 = reverse, 2 = rotated by one
 			if n > 1 && in.run.job.B.MapOrders > 1 {
-				perm := make([]mapEntry, 0, n)
-				rest := order
-				for len(rest) > 1 {
-					conds := make([]*Term, len(rest))
-					k := in.run.chooseLimited(in, conds, "maporder")
-					perm = append(perm, rest[k])
-					rest = append(append([]mapEntry(nil), rest[:k]...), rest[k+1:]...)
+				if in.mapOrder < 0 {
+					in.mapOrder = in.run.chooseLimited(in, make([]*Term, min(in.run.job.B.MapOrders, 3)), "maporder")
 				}
-				perm = append(perm, rest...)
-				order = perm
+				switch in.mapOrder {
+				case 1:
+					for i, j := 0, n-1; i < j; i, j = i+1, j-1 {
+						order[i], order[j] = order[j], order[i]
+					}
+				case 2:
+					order = append(order[1:], order[0])
+				}
 			}
 			it.order = order
 		}
